@@ -1389,6 +1389,22 @@ def _unroll_array_for(B, bi, t):
     return True
 
 
+def _expand_mem_replace(B, bi, t):
+    """`dest = mem::replace(&mut PLACE, v)` with the reference taken in the calling block becomes `dest = PLACE; PLACE = v`:
+    a counter advanced through `mem::replace(&mut self.seq, next)` is the same read and the same store as the two statements."""
+    if len(t["args"]) != 2 or t.get("t") is None:
+        return False
+    src = _ref_source(B, bi, t["args"][0])
+    if src is None:
+        return False
+    line = t.get("line", 0)
+    blk = B["blocks"][bi]
+    blk["stmts"].append({"k": "assign", "lhs": t["dest"], "rv": {"k": "use", "op": {"copy": {"l": src["l"], "p": list(src["p"])}}}, "line": line, "exp": None})
+    blk["stmts"].append({"k": "assign", "lhs": {"l": src["l"], "p": list(src["p"])}, "rv": {"k": "use", "op": t["args"][1]}, "line": line, "exp": None})
+    blk["term"] = {"k": "goto", "t": t["t"], "line": line, "exp": None, "inlined": "mem::replace"}
+    return True
+
+
 def _next_rpath(it_ty):
     """the resolved name rustc gives `Iterator::next` on the std slice iterators (what a `for` loop over them shows), else None"""
     m = re.match(r"^(?:&mut )?std::slice::(ChunksExact|Chunks|Iter)<", it_ty or "")
@@ -2101,6 +2117,11 @@ def inline_helpers(facts, is_new, max_rounds=6):
                 if re.search(r"(^std::iter::Iterator|Iterator>)::next$", cal) and "::tests::" not in B["path"]:
                     if _unroll_array_for(B, bi, t):
                         done.append((B["path"], "for-array"))
+                        changed = True
+                    continue
+                if cal == "std::mem::replace" and "::tests::" not in B["path"]:
+                    if _expand_mem_replace(B, bi, t):
+                        done.append((B["path"], "mem::replace"))
                         changed = True
                     continue
                 if cal == "std::option::Option::<T>::filter" and "::tests::" not in B["path"]:
